@@ -82,8 +82,11 @@ def main(argv):
                     chk = chk["property"]
                 rc, out = sh("./check %s --tier %s --repo %s%s" % (chk, tier, scratch, legs), cwd=VERIF, env={"VERIF_REPO": scratch})
                 viol = [l for l in out.splitlines() if l.startswith("VIOLATION") or l.strip().startswith("violation kind=")]
+                import re as _re
+
+                hits = sum(int(m.group(1)) for m in _re.finditer(r" violations=(\d+)", out)) + sum(int(m.group(1)) for m in _re.finditer(r" crashes=(\d+)", out))
                 res["checks"][chk] = {"exit": rc, "caught": rc == 1 and any(l.startswith("VIOLATION") for l in out.splitlines()),
-                                      "first": viol[0][:300] if viol else "", "wall_s": round(time.time() - t0, 1), "tier": tier}
+                                      "first": viol[0][:300] if viol else "", "wall_s": round(time.time() - t0, 1), "tier": tier, "hits": hits}
             res["caught"] = any(c["caught"] for c in res["checks"].values())
         finally:
             shutil.rmtree(scratch, ignore_errors=True)
